@@ -647,3 +647,40 @@ Proof.
   - simpl in H. destruct (sync_step_pres g _ order w' cs (Inv_at_clock g w clk I)) with (2 := H) as (A & B & C); [intros x sd0; apply T|].
     split; [exact A|]. split; [exact B|]. intros sd k cs0 Hg. rewrite (C sd k cs0 Hg). unfold obj_at, at_clock. rewrite prov_of_with_st. reflexivity.
 Qed.
+
+(* ------------------------------------------------------------------ quiet stays quiet *)
+(* in a quiescent world an engine action issues no provider call, changes neither provider's objects nor any entry,
+   and leaves the world quiescent: nothing happens after quiet until a user acts (C03: no echo after quiet) *)
+Theorem quiescent_stable g w a w' cs :
+  Inv g w -> quiescent w = true -> (forall sd o, a <> AUser sd o) -> algo_step w a = ROk (w', cs) ->
+  cs = [] /\ quiescent w' = true /\ ents (w_st w') = ents (w_st w) /\
+  (forall sd, ProvModel.p_heap (prov_of w' sd) = ProvModel.p_heap (prov_of w sd)).
+Proof.
+  intros I Hq Ha H. unfold quiescent in Hq. apply andb_prop in Hq as [Hq Hcs]. apply andb_prop in Hq as [HqL HqR].
+  assert (Hcs': cset (w_st w) = []) by (destruct (cset (w_st w)); [reflexivity|discriminate]).
+  assert (Hev: forall sd, ProvModel.events_from (prov_of w sd) = []).
+  { intros sd. unfold no_events in HqL, HqR. destruct sd; [destruct (ProvModel.events_from (prov_of w true)); [reflexivity|discriminate]
+                                                       |destruct (ProvModel.events_from (prov_of w false)); [reflexivity|discriminate]]. }
+  destruct a as [sd o|sd clk|order clk]; [exfalso; apply (Ha sd o); reflexivity| |].
+  - simpl in H. unfold intake in H.
+    assert (Hp: prov_of (at_clock w clk) sd = prov_of w sd) by (unfold at_clock; apply prov_of_with_st).
+    rewrite Hp in H. rewrite (read_events_all _ (i_pwf _ _ _ I sd)), Hev in H. simpl in H. injection H as <- <-.
+    split; [reflexivity|].
+    set (w1 := with_prov (at_clock w clk) sd _).
+    assert (Hheap: forall sd0, ProvModel.p_heap (prov_of w1 sd0) = ProvModel.p_heap (prov_of w sd0)).
+    { intros sd0. unfold w1, with_prov, at_clock. destruct sd, sd0; reflexivity. }
+    assert (Hevs: forall sd0, ProvModel.events_from (prov_of w1 sd0) = []).
+    { intros sd0. destruct (Bool.bool_dec sd0 sd) as [->|Hne].
+      - unfold w1, with_prov. destruct sd; simpl; apply events_from_read.
+      - assert (Hx: prov_of w1 sd0 = prov_of w sd0) by (unfold w1, with_prov, at_clock; destruct sd, sd0; try reflexivity; contradiction).
+        rewrite Hx. apply Hev. }
+    split; [|split; [unfold w1, with_prov; destruct sd; reflexivity|exact Hheap]].
+    unfold quiescent, no_events. rewrite (Hevs false), (Hevs true).
+    assert (Hc: cset (w_st w1) = []) by (unfold w1, with_prov; destruct sd; exact Hcs'). rewrite Hc. reflexivity.
+  - simpl in H. unfold sync_step in H.
+    assert (Hc: cset (w_st (at_clock w clk)) = []) by exact Hcs'. rewrite Hc in H. injection H as <- <-.
+    split; [reflexivity|]. split; [|split; [reflexivity|intros sd; unfold at_clock; rewrite prov_of_with_st; reflexivity]].
+    unfold quiescent, no_events.
+    assert (Hp: forall sd, prov_of (at_clock w clk) sd = prov_of w sd) by (intros; unfold at_clock; apply prov_of_with_st).
+    rewrite !Hp, (Hev false), (Hev true), Hc. reflexivity.
+Qed.
